@@ -295,7 +295,7 @@ theorem cdata_all {P : Value → Prop} (hT : ∀ s, P (.text s)) {b b' : Builder
 
 theorem comment_all {P : Value → Prop} (hC : ∀ s, P (.comment s)) {b : Builder} (h : BuilderAll P b) (t : StrSpan) :
     BuilderAll P (b.comment t) :=
-  (addLeaf_all h (hC t.text)).congr rfl rfl (fun eb' he => Or.inr ⟨eb', he, rfl⟩)
+  (addLeaf_all h (hC (normalizeLineEnds t.text))).congr rfl rfl (fun eb' he => Or.inr ⟨eb', he, rfl⟩)
 
 end IdParse
 end XotModel
